@@ -37,12 +37,26 @@ Example raw_not_safe : line_safe (bs " [ 1 ,
  2 ] ") = false.
 Proof. vm_compute. reflexivity. Qed.
 
-Example msg_rt_nonvacuous : msg_rt ex_msg /\ msg_rt ex_rsp.
+Example msg_rt_nonvacuous : msg_rt ex_msg /\ msg_rt ex_rsp /\ msg_rt_at 1 ex_msg /\ msg_rt_at 1 ex_rsp.
 Proof.
-  split; constructor; try reflexivity; try (left; reflexivity).
-  - right. reflexivity.
-  - right. repeat split; reflexivity.
-  - right. reflexivity.
+  assert (He : forall d, d = 1%N \/ d = 2%N -> err_rt_at d ex_err).
+  { intros d Hd. split; [unfold int32_ok; cbn; split; discriminate|]. right. eexists. split; [vm_compute; reflexivity|].
+    destruct Hd as [-> | ->]; vm_compute; reflexivity. }
+  assert (A : forall d, d = 0%N \/ d = 1%N -> msg_rt_at d ex_msg).
+  { intros d Hd. constructor.
+    - reflexivity.
+    - right. reflexivity.
+    - right. destruct Hd as [-> | ->]; repeat split; reflexivity.
+    - left; reflexivity.
+    - intros e H; discriminate H. }
+  assert (B : forall d, d = 0%N \/ d = 1%N -> msg_rt_at d ex_rsp).
+  { intros d Hd. constructor.
+    - reflexivity.
+    - right. reflexivity.
+    - left; reflexivity.
+    - left; reflexivity.
+    - intros e H _ _. injection H as <-. apply He. destruct Hd as [-> | ->]; [left|right]; reflexivity. }
+  unfold msg_rt. split; [apply A; auto | split; [apply B; auto | split; [apply A; auto | apply B; auto]]].
 Qed.
 
 Example parse_back_instance :
